@@ -149,6 +149,11 @@ def run(tier, only=None):
                 shutil.copy2(src_bin, os.path.join(sub_work, 'bin', 'mirdump'))
             r = subprocess.run([sys.executable, '-u', '-m', 'vf.main', 'C01', '--tier', tier, '--only', pat], cwd=VERIF, env=env, stdout=subprocess.PIPE, stderr=subprocess.STDOUT, text=True, timeout=6 * 3600)
             log('  pass %d: %d programs, sub-run of the C01 machinery on the scratch tree: rc=%d, %.0fs' % (pass_no, len(live), r.returncode, time.time() - t0))
+            r9 = None
+            if r.returncode in (0, 1):
+                env9 = dict(env, VERIF_C09_NO_IR='1')
+                r9 = subprocess.run([sys.executable, '-u', '-m', 'vf.main', 'C09', '--tier', tier, '--only', pat], cwd=VERIF, env=env9, stdout=subprocess.PIPE, stderr=subprocess.STDOUT, text=True, timeout=3 * 3600)
+                log('  pass %d: size bounds (C09 machinery) on the scratch tree: rc=%d' % (pass_no, r9.returncode))
             evp = os.path.join(sub_work, 'evidence', 'C01.json')
             if r.returncode == 3 or not os.path.exists(evp) or os.path.getmtime(evp) < t0:
                 bad_files = set()
@@ -193,6 +198,19 @@ def run(tier, only=None):
                     k2 = 'program/seed%d/%s/%s' % (sd, name, kind_)
                 reported += 1
                 ck.violation(k2, 'generated codec of a random program (stands in for %s, seed %d) disagrees with its definition: %s' % (name, sd, j.get('what', '')[:500]), {'wowm': prog_text, 'finding': j.get('what'), 'sub_key': key}, confirmed=True)
+            rdir9 = os.path.join(sub_work, 'replays', 'C09')
+            for f in sorted(glob.glob(os.path.join(rdir9, '*.json'))):
+                if os.path.getmtime(f) < t0:
+                    continue
+                j = json.load(open(f))
+                key = j.get('key', os.path.basename(f))
+                name = key.split('::')[-1].split('/')[0]
+                if name not in texts:
+                    continue
+                ck.violation('program/seed%d/%s/size-bounds-%s' % (sd, name, key.split('/')[-1]), 'size guard the generator computes for a random program (stands in for %s, seed %d) excludes a valid encoding: %s' % (name, sd, j.get('what', '')[:400]),
+                             {'wowm': texts[name], 'finding': j.get('what'), 'sub_key': key}, confirmed=True)
+            if r9 is not None and r9.returncode not in (0, 1):
+                ck.inconclusive.append('size-bounds sub-run failed: %s' % r9.stdout[-300:])
             if r.returncode == 1 and reported == 0:
                 ck.inconclusive.append('the sub-run reports violations that could not be attributed to a random program: %s' % r.stdout[-400:])
             for x in total_cov.get('inconclusive', []):
@@ -201,7 +219,7 @@ def run(tier, only=None):
         cov = total_cov
         ck.assume('programs: %d per run drawn with VERIF_SEED from vf/randwowm.py: ints, floats, Bool, Guid, PackedGuid, CString, SizedCString, enums (with upcast) and flags with if / else-if / else (==, !=, &, ||) nested up to 2, structs, fixed/variable/endless arrays, optional tails, constants; self.size, masks and compressed members are not generated' % n)
         ck.assume('each random message takes the name, opcode and version tag of a shipped single-message file it replaces (the opcode index is a static rule); messages referenced by hand-written library code and MSG_ pairs are never replaced; member and type names carry their type because the Wireshark printer requires one type per name')
-        ck.assume('programs whose generated Rust does not compile are reported and removed, the remaining ones are re-generated and checked (up to 3 passes); per program the claim is C01\'s: read -> write -> size over canonical encodings with symbolic field values per covered shape, same bounds')
+        ck.assume('programs whose generated Rust does not compile are reported and removed, the remaining ones are re-generated and checked (up to 3 passes); per program the claims are C01\'s (read -> write -> size over canonical encodings with symbolic field values per covered shape, same bounds) and C09\'s (the compiled size guard contains the true extremal lengths)')
         return ck.finish({'states': max(cov.get('shapes', len(chosen)), 1), 'transitions': max(cov.get('queries', 1), 1), 'traces_validated_against_impl': cov.get('traces_validated_against_impl', 0),
                           'programs': len(chosen), 'programs_checked_by_solver': len(remaining), 'sub_run': {k: v for k, v in cov.items() if k in ('messages', 'shapes', 'queries', 'paths', 'functions_encoded_count', 'bounds')},
                           'rule': 'real generator on random well-formed programs -> generated Rust compiles -> C01 obligations hold for every new message and covered shape'}, fail_on_inconclusive=False)
